@@ -103,12 +103,14 @@ CLAIMED = {
         '_qr_rectangular) satisfies the same three statements for every m, n, D and its executable kernel refines it (C08_qrtM_spec, C08_qrtU_refines); the '
         'symmetric eigenvalue decomposition with DISTINCT base eigenvalues (_eigh1 step by step: truncated triple product, S, K, diagonal part, Hadamard '
         'product with H) satisfies Q^T Q = I and Q^T A Q = Lambda, Lambda diagonal, modulo t^D for every size and D, and its executable kernel '
-        'refines it (C08_eighM_spec, C08_eighU_refines). On every run: the '
+        'refines it (C08_eighM_spec, C08_eighU_refines); the FULL QR (Q m x m, R m x n upper trapezoidal; the kernel shared by qr_full and svd) '
+        'satisfies Q R = A, Q^T Q = I, R upper trapezoidal modulo t^D for all n <= m, D, with refinement of its executable kernel (C08_qrfM_spec, '
+        'C08_qrfU_refines); the re-orthonormalisation helper lift_Q used for repeated eigenvalues keeps Q^T Q = I at every order (C08_liftQ_spec). On every run: the '
         'implementation against the Coq models (base factors from NumPy/SciPy as the implementation takes them) and, for EVERY factorization '
         '(qr reduced square/tall/wide, qr_full, cholesky, lu, eigh with distinct and exactly repeated base eigenvalues incl. splitting at '
         'order 2, eig D<=2, svd square/tall/wide), the defining equations, triangular structure, ordering and base-point factors evaluated '
         'with exact rational series arithmetic on the implementation output.',
-   note=NOTE_COMMON + 'qr of wide matrices, qr_full, eigh with REPEATED base eigenvalues (block splitting, lift_Q), eig and svd have no Coq model: their defining equations are validated per case (not a proof), over a scheduled sweep of all (degree, splitting order) pairs; LAPACK base factorizations are inputs.',
+   note=NOTE_COMMON + 'qr of wide matrices, eigh with REPEATED base eigenvalues (the block splitting around the proved lift_Q and distinct-eigenvalue step), eig and svd have no Coq model: their defining equations are validated per case (not a proof), over a scheduled sweep of all (degree, splitting order) pairs; LAPACK base factorizations are inputs.',
    technique='Coq proof of the lifting steps over mathcomp matrices (kernels shared with the executable list-matrix instance) + correspondence + exact residual predicates',
    design='4/C08'),
  'C09': dict(
